@@ -2,6 +2,7 @@ import OpusProofs.KernelsDispatch
 import OpusProofs.KernelsVQ
 import OpusProofs.KernelsXcorr
 import OpusProofs.KernelsNsq
+import OpusProofs.KernelsPvq
 /-
   Property C15 — "Optimised (SIMD, run-time dispatched) kernels match the portable C code".
 
@@ -22,8 +23,9 @@ import OpusProofs.KernelsNsq
   whole, the VAD sub-frame energy loop, `silk_sar_round_smulww`.
 
   NOT proved here (see UNPROVED / NOT_COVERED in tools/props/C15.py): bit-identity of the sample loops of
-  silk_NSQ_del_dec_sse4_1/_avx2 and of the rest of silk_VAD_GetSA_Q8_sse4_1 with their C twins, and op_pvq_search_sse2
-  (no Lean model; differential search only); rounding-error bounds of the float kernels in IEEE arithmetic.
+  silk_NSQ_del_dec_sse4_1/_avx2 and of the rest of silk_VAD_GetSA_Q8_sse4_1 with their C twins; for op_pvq_search_sse2 the
+  integer bookkeeping is proved under contracts on its float parts (`pvq_search_relational`), the contracts themselves
+  and the quality of its choices are searched only; rounding-error bounds of the float kernels in IEEE arithmetic.
 -/
 namespace OpusProps.C15
 open Opus.Kernels Opus.Gen
@@ -163,6 +165,32 @@ theorem sar_round_smulww_avx2_eq_c (a b : Int) (bits : Nat) :
    wraps to -2, the 64-bit form returns the true, large quotient — int16 output -2 versus saturated 32767. -/
 example : sarRoundSmulwwC 2147483647 26345472 8 = -2 ∧ sarRoundSmulww64 2147483647 26345472 8 = 3372220414 ∧
     sarRoundSmulwwAvx2 2147483647 26345472 8 = -2 := by decide +kernel
+
+/-- The relational property the codec needs from the PVQ pulse search, for `op_pvq_search_sse2` and `op_pvq_search_c`
+    alike: WHATEVER the floating-point parts return — the pre-search counts `proj` (SSE2: `_mm_cvttps_epi32` of an
+    `_mm_rcp_ps`-scaled vector) and, in every greedy iteration, the position `pick s` of the (SSE2: `rsqrt`-approximated)
+    arg-max — as long as they stay within their contracts (`proj` has one count per position summing to at most K, i.e.
+    `pulsesLeft ≥ 0`; the arg-max returns a position `< N`), the search returns a vector of N integers with exactly K
+    pulses (`Σ|iy| = K`), whose signs follow the input (`iy[j] ≤ 0` where `X[j] < 0`, `≥ 0` elsewhere), and `yy = Σ iy²`.
+    Covers the "too many pulses left" branch and both sign-restoration idioms (`(iy ^ -s) + s` and `(iy + m) ^ m`).
+    The two contracts are properties of float code and are NOT proved; the witness search checks their consequence (this
+    very conclusion) on the compiled kernels. -/
+theorem pvq_search_relational (n K : Nat) (proj : List Nat) (pick : Pvq.St → Nat) (signs : List Bool)
+    (hn : 0 < n) (hproj : proj.length = n) (hsum : Pvq.sum proj ≤ K) (hpick : ∀ s, pick s < n) (hs : signs.length = n) :
+    (let r := Pvq.searchSse2 n K proj pick signs
+     r.1.length = n ∧ Pvq.sumAbs r.1 = K ∧ (r.2 : Int) = Pvq.sumSqI r.1 ∧
+     (∀ j, j < n → (signs.getD j false = true → r.1.getD j 0 ≤ 0) ∧ (signs.getD j false = false → 0 ≤ r.1.getD j 0))) ∧
+    (let r := Pvq.searchC n K proj pick signs
+     r.1.length = n ∧ Pvq.sumAbs r.1 = K ∧ (r.2 : Int) = Pvq.sumSqI r.1 ∧
+     (∀ j, j < n → (signs.getD j false = true → r.1.getD j 0 ≤ 0) ∧ (signs.getD j false = false → 0 ≤ r.1.getD j 0))) :=
+  ⟨Pvq.search_spec _ Pvq.signRestoreSse_eq n K proj pick signs hn hproj hsum hpick hs,
+   Pvq.search_spec _ Pvq.signRestoreC_eq n K proj pick signs hn hproj hsum hpick hs⟩
+
+/- non-vacuity: N=4, K=7, pre-search placed 1+0+2+0, the arg-max oracle alternates between positions 3 and 1; and the
+   "too many pulses left" branch (K=20 > N+3 with an empty pre-search). -/
+example : Pvq.searchSse2 4 7 [1, 0, 2, 0] (fun s => if s.left % 2 = 0 then 3 else 1) [true, false, false, true]
+    = ([-1, 2, 2, -2], 13) := by decide
+example : Pvq.searchC 4 20 [0, 0, 0, 0] (fun _ => 2) [true, false, false, false] = ([-20, 0, 0, 0], 400) := by decide
 
 /-! ### (iii) float reduction kernels: lane decomposition = sequential sum, every length -/
 
